@@ -10,7 +10,8 @@
 //
 // A signing call is ONE real call of SignVote / SignProposal; the sub-steps that follow its Request in the
 // behaviour tell the failpoint (verifhook.DurableFn at "WriteFileAtomic.bak/.new/.rename") what to do at each
-// site: ok (continue), fail (return an error), crash (abandon the call and the object right there).  At every
+// site: ok (continue), fail (the failpoint returns an error), realfail (the failpoint obstructs the target so that
+// the REAL write / rename fails), crash (abandon the call and the object right there).  At every
 // site the object's Last* fields and the three files are compared with the spec state reached so far.
 //
 // Independent oracles on every released signature (Failure.Property = true):
@@ -303,12 +304,33 @@ func (w *world) call(h, r int64, s int8, b string, pl *plan) (sig crypto.Signatu
 		case "fail":
 			rep.Count("injected_fail")
 			return errors.New("verif: injected write failure at " + site)
+		case "realfail":
+			// no injected error: obstruct the target so that the REAL write / rename that follows fails
+			rep.Count("real_fail")
+			switch site {
+			case "WriteFileAtomic.bak":
+				os.Remove(w.file + ".bak")
+				os.Mkdir(w.file+".bak", 0700)
+			case "WriteFileAtomic.new":
+				os.Remove(w.file + ".new")
+				os.Mkdir(w.file+".new", 0700)
+			case "WriteFileAtomic.rename":
+				os.Remove(w.file + ".new") // vanished between its write and the rename: os.Rename fails with ENOENT
+			}
+			return nil
 		case "crash":
 			rep.Count("injected_crash")
 			panic(crashNow{site})
 		}
 		return nil
 	}
+	defer func() {
+		for _, sfx := range []string{".bak", ".new"} {
+			if fi, e := os.Stat(w.file + sfx); e == nil && fi.IsDir() {
+				os.Remove(w.file + sfx)
+			}
+		}
+	}()
 	pv, stack := mbt.Catch(func() {
 		if vote != nil {
 			err = w.pv.SignVote(chainID, vote)
@@ -456,7 +478,12 @@ func runModel(w *world, tr mbt.Trace) {
 					w.onRelease(want, sb, sig)
 				}
 			default: // sign
-				failed := pl.at[sites[0]] == "fail" || pl.at[sites[1]] == "fail" || pl.at[sites[2]] == "fail"
+				failed := false
+				for _, st := range sites {
+					if pl.at[st] == "fail" || pl.at[st] == "realfail" {
+						failed = true
+					}
+				}
 				rep.Checks++
 				switch {
 				case failed && (err == nil || sig != nil):
@@ -570,6 +597,8 @@ func runRandom(w *world, tr mbt.Trace) {
 			pl.at[sites[rng.Intn(3)]] = "crash"
 		case 2:
 			pl.ret = "crash"
+		case 3:
+			pl.at[sites[rng.Intn(3)]] = "realfail"
 		}
 		w.act = fmt.Sprintf("Request%+v plan %v ret %q", q, pl.at, pl.ret)
 		sig, err, crashed, sb := w.call(q.H, q.R, q.S, q.B, pl)
